@@ -16,6 +16,18 @@ CHECKS = {
             "Trusted: TLC, the transcription of the worker loop's pool operations (harness pool instead of crossbeam deques), "
             "sequential consistency for the Relaxed counters, bounded configuration (N<=4, budget<=4) for exhaustiveness.",
             "4/C12"),
+    "C04": ("model_checking",
+            "TLA+ spec Safepoint.tla model-checked by TLC (exclusion, code asserts, deadlock freedom, liveness, refinement to "
+            "AbstractStw); TLC behaviours replayed step-by-step into the real safepoint.rs/threads.rs via gates + sync shim; event "
+            "logs of real multi-threaded Dora executables validated against SafepointTrace.tla",
+            "Exhaustive TLC exploration of the stop-the-world protocol (every interleaving of each atomic on the thread-state byte and "
+            "each barrier/list critical section for up to 3 threads x 3 operations, 4 x 1) proves exclusion, completion and resumption "
+            "for the design; both conformance directions bind it to the code: model behaviours are stepped through the real functions "
+            "with all thread states, the barrier and the runtime state compared after every step, and logs of real executables (both "
+            "code generators, gc-stress) are accepted as behaviours of the spec with every observed value bound.",
+            "Trusted: TLC; SC memory (all protocol atomics are SeqCst); the operation inside the closure abstracted to begin/end; "
+            "harness threads stand in for managed threads in the replay direction; exhaustiveness only for the bounded configurations.",
+            "4/C04"),
 }
 
 NOT_YET = {
